@@ -135,6 +135,17 @@ module Nat =
   let modulo x = function
   | O -> x
   | S y' -> sub y' (snd (divmod x y' O y'))
+
+  (** val eq_dec : nat -> nat -> bool **)
+
+  let rec eq_dec n0 m =
+    match n0 with
+    | O -> (match m with
+            | O -> true
+            | S _ -> false)
+    | S n1 -> (match m with
+               | O -> false
+               | S n2 -> eq_dec n1 n2)
  end
 
 type positive =
@@ -634,6 +645,12 @@ module N =
   | S n' -> Npos (Coq_Pos.of_succ_nat n')
  end
 
+(** val in_dec : ('a1 -> 'a1 -> bool) -> 'a1 -> 'a1 list -> bool **)
+
+let rec in_dec h a = function
+| [] -> false
+| y :: l0 -> let s = h y a in if s then true else in_dec h a l0
+
 (** val nth : nat -> 'a1 list -> 'a1 -> 'a1 **)
 
 let rec nth n0 l default =
@@ -680,6 +697,12 @@ let rec fold_left f l a0 =
   | [] -> a0
   | b :: t -> fold_left f t (f a0 b)
 
+(** val existsb : ('a1 -> bool) -> 'a1 list -> bool **)
+
+let rec existsb f = function
+| [] -> false
+| a :: l0 -> (||) (f a) (existsb f l0)
+
 (** val forallb : ('a1 -> bool) -> 'a1 list -> bool **)
 
 let rec forallb f = function
@@ -715,6 +738,12 @@ let rec skipn n0 l =
   | S n1 -> (match l with
              | [] -> []
              | _ :: l0 -> skipn n1 l0)
+
+(** val nodup : ('a1 -> 'a1 -> bool) -> 'a1 list -> 'a1 list **)
+
+let rec nodup decA = function
+| [] -> []
+| x :: xs -> if in_dec decA x xs then nodup decA xs else x :: (nodup decA xs)
 
 (** val repeat : 'a1 -> nat -> 'a1 list **)
 
@@ -1144,6 +1173,11 @@ let remove_at i l =
 let update_at i x l =
   app (firstn i l) (x :: (skipn (S i) l))
 
+(** val k_MaxPacketLength : z **)
+
+let k_MaxPacketLength =
+  Zpos (XO (XO (XO (XO (XO (XO (XO (XO (XO (XO (XO (XO XH))))))))))))
+
 (** val g_AttributesEncodedLen : guard list **)
 
 let g_AttributesEncodedLen =
@@ -1235,6 +1269,55 @@ let g_Attributes_encodeTo =
     ((Ascii (true, false, false, true, false, true, false, false)),
     EmptyString)))))))))))))))))))))))))))))))))))))); gop = OpGT; glit =
     (Zpos (XI (XO (XI (XI (XI (XI (XI XH)))))))) } :: []))
+
+(** val g_Client_Exchange : guard list **)
+
+let g_Client_Exchange =
+  { gexpr = (String ((Ascii (true, true, false, false, false, true, true,
+    false)), (String ((Ascii (false, true, true, true, false, true, false,
+    false)), (String ((Ascii (false, true, false, false, true, false, true,
+    false)), (String ((Ascii (true, false, true, false, false, true, true,
+    false)), (String ((Ascii (false, false, true, false, true, true, true,
+    false)), (String ((Ascii (false, true, false, false, true, true, true,
+    false)), (String ((Ascii (true, false, false, true, true, true, true,
+    false)), EmptyString)))))))))))))); gop = OpGT; glit = Z0 } :: ({ gexpr =
+    (String ((Ascii (true, true, false, false, false, true, true, false)),
+    (String ((Ascii (false, true, true, true, false, true, false, false)),
+    (String ((Ascii (true, false, true, true, false, false, true, false)),
+    (String ((Ascii (true, false, false, false, false, true, true, false)),
+    (String ((Ascii (false, false, false, true, true, true, true, false)),
+    (String ((Ascii (false, false, false, false, true, false, true, false)),
+    (String ((Ascii (true, false, false, false, false, true, true, false)),
+    (String ((Ascii (true, true, false, false, false, true, true, false)),
+    (String ((Ascii (true, true, false, true, false, true, true, false)),
+    (String ((Ascii (true, false, true, false, false, true, true, false)),
+    (String ((Ascii (false, false, true, false, true, true, true, false)),
+    (String ((Ascii (true, false, true, false, false, false, true, false)),
+    (String ((Ascii (false, true, false, false, true, true, true, false)),
+    (String ((Ascii (false, true, false, false, true, true, true, false)),
+    (String ((Ascii (true, true, true, true, false, true, true, false)),
+    (String ((Ascii (false, true, false, false, true, true, true, false)),
+    (String ((Ascii (true, true, false, false, true, true, true, false)),
+    EmptyString)))))))))))))))))))))))))))))))))); gop = OpGT; glit =
+    Z0 } :: ({ gexpr = (String ((Ascii (true, true, false, false, false,
+    true, true, false)), (String ((Ascii (false, true, true, true, false,
+    true, false, false)), (String ((Ascii (true, false, true, true, false,
+    false, true, false)), (String ((Ascii (true, false, false, false, false,
+    true, true, false)), (String ((Ascii (false, false, false, true, true,
+    true, true, false)), (String ((Ascii (false, false, false, false, true,
+    false, true, false)), (String ((Ascii (true, false, false, false, false,
+    true, true, false)), (String ((Ascii (true, true, false, false, false,
+    true, true, false)), (String ((Ascii (true, true, false, true, false,
+    true, true, false)), (String ((Ascii (true, false, true, false, false,
+    true, true, false)), (String ((Ascii (false, false, true, false, true,
+    true, true, false)), (String ((Ascii (true, false, true, false, false,
+    false, true, false)), (String ((Ascii (false, true, false, false, true,
+    true, true, false)), (String ((Ascii (false, true, false, false, true,
+    true, true, false)), (String ((Ascii (true, true, true, true, false,
+    true, true, false)), (String ((Ascii (false, true, false, false, true,
+    true, true, false)), (String ((Ascii (true, true, false, false, true,
+    true, true, false)), EmptyString)))))))))))))))))))))))))))))))))); gop =
+    OpGT; glit = Z0 } :: []))
 
 (** val g_Date : guard list **)
 
@@ -2987,271 +3070,523 @@ let ipv6prefix a =
                            (S (S (S O))))))))))))))))))
                   else Err e_invalid))
 
-(** val spec_dec_uint : nat -> bytes -> n res **)
+(** val e_nonauth : n **)
 
-let spec_dec_uint k a =
-  if Nat.eqb (length a) k then Ok (be_dec a) else Err e_invalid
+let e_nonauth =
+  Npos (XI (XO (XO XH)))
 
-(** val spec_enc_uint : nat -> n -> bytes **)
+type outcome =
+| Returned of packet * nat
+| Failed of n * nat
+| Waiting of z
 
-let spec_enc_uint =
-  be_enc
+(** val over_budget : z -> nat -> z -> bool **)
 
-(** val spec_new_octets : bytes -> bytes res **)
+let over_budget max_errors g count =
+  (&&) (holds (gd g_Client_Exchange g) max_errors) (Z.geb count max_errors)
 
-let spec_new_octets s =
-  if Nat.leb (length s) (S (S (S (S (S (S (S (S (S (S (S (S (S (S (S (S (S (S
-       (S (S (S (S (S (S (S (S (S (S (S (S (S (S (S (S (S (S (S (S (S (S (S
-       (S (S (S (S (S (S (S (S (S (S (S (S (S (S (S (S (S (S (S (S (S (S (S
-       (S (S (S (S (S (S (S (S (S (S (S (S (S (S (S (S (S (S (S (S (S (S (S
-       (S (S (S (S (S (S (S (S (S (S (S (S (S (S (S (S (S (S (S (S (S (S (S
-       (S (S (S (S (S (S (S (S (S (S (S (S (S (S (S (S (S (S (S (S (S (S (S
-       (S (S (S (S (S (S (S (S (S (S (S (S (S (S (S (S (S (S (S (S (S (S (S
-       (S (S (S (S (S (S (S (S (S (S (S (S (S (S (S (S (S (S (S (S (S (S (S
-       (S (S (S (S (S (S (S (S (S (S (S (S (S (S (S (S (S (S (S (S (S (S (S
-       (S (S (S (S (S (S (S (S (S (S (S (S (S (S (S (S (S (S (S (S (S (S (S
-       (S (S (S (S (S (S (S (S (S (S (S (S (S (S (S (S (S (S (S (S (S (S (S
-       (S (S (S (S (S
-       O)))))))))))))))))))))))))))))))))))))))))))))))))))))))))))))))))))))))))))))))))))))))))))))))))))))))))))))))))))))))))))))))))))))))))))))))))))))))))))))))))))))))))))))))))))))))))))))))))))))))))))))))))))))))))))))))))))))))))))))))))))))))))))))
-  then Ok s
-  else Err e_invalid
+(** val client_loop :
+    (bytes -> bytes) -> z -> bool -> bytes -> bytes -> bytes list -> z -> nat
+    -> outcome **)
 
-(** val v4_mapped_prefix : bytes **)
+let rec client_loop h max_errors skip_verify wire sec ds count i =
+  match ds with
+  | [] -> Waiting count
+  | d :: r ->
+    let d0 = firstn (Z.to_nat k_MaxPacketLength) d in
+    (match parse d0 sec with
+     | Ok p ->
+       if (&&) (negb skip_verify) (negb (is_authentic_response h d0 wire sec))
+       then let count0 = Z.add count (Zpos XH) in
+            if over_budget max_errors (S (S O)) count0
+            then Failed (e_nonauth, i)
+            else client_loop h max_errors skip_verify wire sec r count0 (S i)
+       else Returned (p, i)
+     | Err e ->
+       let count0 = Z.add count (Zpos XH) in
+       if over_budget max_errors (S O) count0
+       then Failed (e, i)
+       else client_loop h max_errors skip_verify wire sec r count0 (S i)
+     | Panic -> Failed ((Npos (XO (XI (XO (XO (XO (XI XH))))))), i)
+     | OutOfFuel -> Failed ((Npos (XI (XI (XO (XO (XO (XI XH))))))), i))
 
-let v4_mapped_prefix =
-  N0 :: (N0 :: (N0 :: (N0 :: (N0 :: (N0 :: (N0 :: (N0 :: (N0 :: (N0 :: ((Npos
-    (XI (XI (XI (XI (XI (XI (XI XH)))))))) :: ((Npos (XI (XI (XI (XI (XI (XI
-    (XI XH)))))))) :: [])))))))))))
+(** val exchange_recv :
+    (bytes -> bytes) -> z -> bool -> bytes -> bytes -> bytes list -> outcome **)
 
-(** val ip_canon : bytes -> bytes option **)
+let exchange_recv h max_errors skip_verify wire sec ds =
+  client_loop h max_errors skip_verify wire sec ds Z0 O
 
-let ip_canon ip =
-  if Nat.eqb (length ip) (S (S (S (S O))))
-  then Some (app v4_mapped_prefix ip)
-  else if Nat.eqb (length ip) (S (S (S (S (S (S (S (S (S (S (S (S (S (S (S (S
-            O))))))))))))))))
-       then Some ip
+type sret =
+| RetShutdown
+| RetErr
+
+type spc =
+| S_start
+| S_locked
+| S_reg
+| S_unl
+| S_registered
+| S_reading
+| S_exit of sret
+| S_exit_locked of sret
+| S_exit_unl of sret
+| S_returned of sret
+
+type dpc =
+| D_start of bool
+| D_handler
+| D_exit
+| D_end
+
+type hpc =
+| H_start
+| H_locked
+| H_close
+| H_cancel
+| H_dec
+| H_unlock
+| H_wait
+| H_select
+| H_ret_nil
+| H_ret_err
+
+type thread =
+| TServe of nat * spc
+| TDgram of dpc
+| TShut of hpc * bool
+
+type state = { mu : bool; shut : bool; active : z; closes : nat; sdec : 
+               bool; regs : nat list; closedc : nat list; cancelled : 
+               bool; threads : thread list }
+
+(** val init : state **)
+
+let init =
+  { mu = false; shut = false; active = Z0; closes = O; sdec = false; regs =
+    []; closedc = []; cancelled = false; threads = [] }
+
+type action =
+| ARun
+| ARead_datagram of bool
+| ARead_error of bool
+| AHandler_return
+| AWake_nil
+| AWake_err
+| AExpire
+
+(** val set_thread : state -> nat -> thread -> state **)
+
+let set_thread s i t =
+  { mu = s.mu; shut = s.shut; active = s.active; closes = s.closes; sdec =
+    s.sdec; regs = s.regs; closedc = s.closedc; cancelled = s.cancelled;
+    threads = (update_at i t s.threads) }
+
+(** val with_mu : state -> bool -> state **)
+
+let with_mu s b =
+  { mu = b; shut = s.shut; active = s.active; closes = s.closes; sdec =
+    s.sdec; regs = s.regs; closedc = s.closedc; cancelled = s.cancelled;
+    threads = s.threads }
+
+(** val active_add : state -> state **)
+
+let active_add s =
+  { mu = s.mu; shut = s.shut; active = (Z.add s.active (Zpos XH)); closes =
+    s.closes; sdec = s.sdec; regs = s.regs; closedc = s.closedc; cancelled =
+    s.cancelled; threads = s.threads }
+
+(** val active_done : state -> state **)
+
+let active_done s =
+  let a = Z.sub s.active (Zpos XH) in
+  { mu = s.mu; shut = s.shut; active = a; closes =
+  (if Z.eqb a (Zneg XH) then S s.closes else s.closes); sdec = s.sdec; regs =
+  s.regs; closedc = s.closedc; cancelled = s.cancelled; threads = s.threads }
+
+(** val remove_one : nat -> nat list -> nat list **)
+
+let rec remove_one c = function
+| [] -> []
+| x :: r -> if Nat.eqb x c then r else x :: (remove_one c r)
+
+(** val step_serve :
+    bool -> state -> nat -> nat -> spc -> action -> state option **)
+
+let step_serve legacy s i c pc a =
+  match pc with
+  | S_start ->
+    (match a with
+     | ARun ->
+       if s.mu
+       then None
+       else Some (set_thread (with_mu s true) i (TServe (c, S_locked)))
+     | _ -> None)
+  | S_locked ->
+    (match a with
+     | ARun ->
+       if s.shut
+       then Some
+              (set_thread (with_mu s false) i (TServe (c, (S_returned
+                RetShutdown))))
+       else Some
+              (set_thread { mu = s.mu; shut = s.shut; active = s.active;
+                closes = s.closes; sdec = s.sdec; regs = (c :: s.regs);
+                closedc = s.closedc; cancelled = s.cancelled; threads =
+                s.threads } i (TServe (c, S_reg)))
+     | _ -> None)
+  | S_reg ->
+    (match a with
+     | ARun ->
+       Some
+         (set_thread (if legacy then s else active_add s) i (TServe (c,
+           S_unl)))
+     | _ -> None)
+  | S_unl ->
+    (match a with
+     | ARun ->
+       Some (set_thread (with_mu s false) i (TServe (c, S_registered)))
+     | _ -> None)
+  | S_registered ->
+    (match a with
+     | ARun ->
+       Some
+         (set_thread (if legacy then active_add s else s) i (TServe (c,
+           S_reading)))
+     | _ -> None)
+  | S_reading ->
+    (match a with
+     | ARead_datagram drop ->
+       let s1 = active_add s in
+       Some { mu = s1.mu; shut = s1.shut; active = s1.active; closes =
+       s1.closes; sdec = s1.sdec; regs = s1.regs; closedc = s1.closedc;
+       cancelled = s1.cancelled; threads =
+       (app s1.threads ((TDgram (D_start drop)) :: [])) }
+     | ARead_error temp ->
+       if s.shut
+       then Some (set_thread s i (TServe (c, (S_exit RetShutdown))))
+       else if temp
+            then Some s
+            else Some (set_thread s i (TServe (c, (S_exit RetErr))))
+     | _ -> None)
+  | S_exit r ->
+    (match a with
+     | ARun ->
+       if s.mu
+       then None
+       else Some
+              (set_thread (with_mu s true) i (TServe (c, (S_exit_locked r))))
+     | _ -> None)
+  | S_exit_locked r ->
+    (match a with
+     | ARun ->
+       Some
+         (set_thread { mu = false; shut = s.shut; active = s.active; closes =
+           s.closes; sdec = s.sdec; regs = (remove_one c s.regs); closedc =
+           s.closedc; cancelled = s.cancelled; threads = s.threads } i
+           (TServe (c, (S_exit_unl r))))
+     | _ -> None)
+  | S_exit_unl r ->
+    (match a with
+     | ARun ->
+       Some (set_thread (active_done s) i (TServe (c, (S_returned r))))
+     | _ -> None)
+  | S_returned _ -> None
+
+(** val step_dgram : state -> nat -> dpc -> action -> state option **)
+
+let step_dgram s i pc a =
+  match pc with
+  | D_start drop ->
+    (match a with
+     | ARun ->
+       Some (set_thread s i (TDgram (if drop then D_exit else D_handler)))
+     | _ -> None)
+  | D_handler ->
+    (match a with
+     | AHandler_return -> Some (set_thread s i (TDgram D_exit))
+     | _ -> None)
+  | D_exit ->
+    (match a with
+     | ARun -> Some (set_thread (active_done s) i (TDgram D_end))
+     | _ -> None)
+  | D_end -> None
+
+(** val step_shut : state -> nat -> hpc -> bool -> action -> state option **)
+
+let step_shut s i pc e a =
+  match pc with
+  | H_start ->
+    (match a with
+     | ARun ->
+       if s.mu
+       then None
+       else Some (set_thread (with_mu s true) i (TShut (H_locked, e)))
+     | AExpire -> Some (set_thread s i (TShut (pc, true)))
+     | _ -> None)
+  | H_locked ->
+    (match a with
+     | ARun ->
+       if s.shut
+       then Some (set_thread s i (TShut (H_unlock, e)))
+       else Some
+              (set_thread { mu = s.mu; shut = true; active = s.active;
+                closes = s.closes; sdec = s.sdec; regs = s.regs; closedc =
+                s.closedc; cancelled = s.cancelled; threads = s.threads } i
+                (TShut (H_close, e)))
+     | AExpire -> Some (set_thread s i (TShut (pc, true)))
+     | _ -> None)
+  | H_close ->
+    (match a with
+     | ARun ->
+       Some
+         (set_thread { mu = s.mu; shut = s.shut; active = s.active; closes =
+           s.closes; sdec = s.sdec; regs = s.regs; closedc =
+           (app s.regs s.closedc); cancelled = s.cancelled; threads =
+           s.threads } i (TShut (H_cancel, e)))
+     | AExpire -> Some (set_thread s i (TShut (pc, true)))
+     | _ -> None)
+  | H_cancel ->
+    (match a with
+     | ARun ->
+       Some
+         (set_thread { mu = s.mu; shut = s.shut; active = s.active; closes =
+           s.closes; sdec = s.sdec; regs = s.regs; closedc = s.closedc;
+           cancelled = true; threads = s.threads } i (TShut (H_dec, e)))
+     | AExpire -> Some (set_thread s i (TShut (pc, true)))
+     | _ -> None)
+  | H_dec ->
+    (match a with
+     | ARun ->
+       let s1 = active_done s in
+       Some
+       (set_thread { mu = s1.mu; shut = s1.shut; active = s1.active; closes =
+         s1.closes; sdec = true; regs = s1.regs; closedc = s1.closedc;
+         cancelled = s1.cancelled; threads = s1.threads } i (TShut (H_unlock,
+         e)))
+     | AExpire -> Some (set_thread s i (TShut (pc, true)))
+     | _ -> None)
+  | H_unlock ->
+    (match a with
+     | ARun -> Some (set_thread (with_mu s false) i (TShut (H_wait, e)))
+     | AExpire -> Some (set_thread s i (TShut (pc, true)))
+     | _ -> None)
+  | H_wait ->
+    (match a with
+     | ARun -> Some (set_thread s i (TShut (H_select, e)))
+     | AExpire -> Some (set_thread s i (TShut (pc, true)))
+     | _ -> None)
+  | H_select ->
+    (match a with
+     | AWake_nil ->
+       if Nat.ltb O s.closes
+       then Some (set_thread s i (TShut (H_ret_nil, e)))
        else None
+     | AWake_err ->
+       if e then Some (set_thread s i (TShut (H_ret_err, e))) else None
+     | AExpire -> Some (set_thread s i (TShut (pc, true)))
+     | _ -> None)
+  | _ ->
+    (match a with
+     | AExpire -> Some (set_thread s i (TShut (pc, true)))
+     | _ -> None)
 
-(** val spec_new_ipaddr : bytes -> bytes res **)
+(** val step : bool -> state -> nat -> action -> state option **)
 
-let spec_new_ipaddr ip =
-  if Nat.eqb (length ip) (S (S (S (S O))))
-  then Ok ip
-  else if (&&)
-            (Nat.eqb (length ip) (S (S (S (S (S (S (S (S (S (S (S (S (S (S (S
-              (S O)))))))))))))))))
-            (beq
-              (firstn (S (S (S (S (S (S (S (S (S (S (S (S O)))))))))))) ip)
-              v4_mapped_prefix)
-       then Ok (skipn (S (S (S (S (S (S (S (S (S (S (S (S O)))))))))))) ip)
-       else Err e_invalid
+let step legacy s i a =
+  match nth_error s.threads i with
+  | Some t ->
+    (match t with
+     | TServe (c, pc) -> step_serve legacy s i c pc a
+     | TDgram pc -> step_dgram s i pc a
+     | TShut (pc, e) -> step_shut s i pc e a)
+  | None -> None
 
-(** val spec_fixed : nat -> bytes -> bytes res **)
+(** val add_thread : state -> thread -> state **)
 
-let spec_fixed k a =
-  if Nat.eqb (length a) k then Ok a else Err e_invalid
+let add_thread s t =
+  { mu = s.mu; shut = s.shut; active = s.active; closes = s.closes; sdec =
+    s.sdec; regs = s.regs; closedc = s.closedc; cancelled = s.cancelled;
+    threads = (app s.threads (t :: [])) }
 
-(** val spec_new_ipv6addr : bytes -> bytes res **)
+type hact =
+| HServe of nat
+| HRelease of nat
+| HDeliver of nat * bool
+| HHandlerDone of nat
+| HShutdown
+| HWait of nat
+| HExpire of nat
 
-let spec_new_ipv6addr ip =
-  match ip_canon ip with
-  | Some c -> Ok c
-  | None -> Err e_invalid
+(** val run_thread : bool -> nat -> state -> nat -> state **)
 
-(** val spec_new_date : z -> bytes res **)
+let rec run_thread legacy fuel s i =
+  match fuel with
+  | O -> s
+  | S f ->
+    (match nth_error s.threads i with
+     | Some t ->
+       (match t with
+        | TServe (_, pc) ->
+          (match pc with
+           | S_registered -> s
+           | _ ->
+             (match step legacy s i ARun with
+              | Some s' -> run_thread legacy f s' i
+              | None -> s))
+        | TDgram _ ->
+          (match step legacy s i ARun with
+           | Some s' -> run_thread legacy f s' i
+           | None -> s)
+        | TShut (pc, _) ->
+          (match pc with
+           | H_wait -> s
+           | _ ->
+             (match step legacy s i ARun with
+              | Some s' -> run_thread legacy f s' i
+              | None -> s)))
+     | None ->
+       (match step legacy s i ARun with
+        | Some s' -> run_thread legacy f s' i
+        | None -> s))
 
-let spec_new_date unix =
-  if (&&) (Z.leb Z0 unix)
-       (Z.leb unix (Zpos (XI (XI (XI (XI (XI (XI (XI (XI (XI (XI (XI (XI (XI
-         (XI (XI (XI (XI (XI (XI (XI (XI (XI (XI (XI (XI (XI (XI (XI (XI (XI
-         (XI XH)))))))))))))))))))))))))))))))))
-  then Ok (be_enc (S (S (S (S O)))) (Z.to_N unix))
-  else Err e_invalid
+(** val settle_thread : bool -> state -> nat -> state **)
 
-(** val spec_date : bytes -> z res **)
+let settle_thread legacy s i =
+  match nth_error s.threads i with
+  | Some t ->
+    (match t with
+     | TServe (c, pc) ->
+       (match pc with
+        | S_reading ->
+          if existsb (Nat.eqb c) s.closedc
+          then (match step legacy s i (ARead_error false) with
+                | Some s' ->
+                  run_thread legacy (S (S (S (S (S (S (S (S (S (S (S (S (S (S
+                    (S (S (S (S (S (S O)))))))))))))))))))) s' i
+                | None -> s)
+          else s
+        | _ -> s)
+     | TDgram _ -> s
+     | TShut (pc, e) ->
+       (match pc with
+        | H_select ->
+          if Nat.ltb O s.closes
+          then (match step legacy s i AWake_nil with
+                | Some s' -> s'
+                | None -> s)
+          else if e
+               then (match step legacy s i AWake_err with
+                     | Some s' -> s'
+                     | None -> s)
+               else s
+        | _ -> s))
+  | None -> s
 
-let spec_date a =
-  if Nat.eqb (length a) (S (S (S (S O))))
-  then Ok (Z.of_N (be_dec a))
-  else Err e_invalid
+(** val settle_all : bool -> state -> nat -> state **)
 
-(** val spec_new_vsa : n -> bytes -> bytes res **)
+let rec settle_all legacy s = function
+| O -> s
+| S n' -> settle_thread legacy (settle_all legacy s n') n'
 
-let spec_new_vsa id v =
-  if (&&) (Nat.leb (S O) (length v))
-       (Nat.leb (length v) (S (S (S (S (S (S (S (S (S (S (S (S (S (S (S (S (S
-         (S (S (S (S (S (S (S (S (S (S (S (S (S (S (S (S (S (S (S (S (S (S (S
-         (S (S (S (S (S (S (S (S (S (S (S (S (S (S (S (S (S (S (S (S (S (S (S
-         (S (S (S (S (S (S (S (S (S (S (S (S (S (S (S (S (S (S (S (S (S (S (S
-         (S (S (S (S (S (S (S (S (S (S (S (S (S (S (S (S (S (S (S (S (S (S (S
-         (S (S (S (S (S (S (S (S (S (S (S (S (S (S (S (S (S (S (S (S (S (S (S
-         (S (S (S (S (S (S (S (S (S (S (S (S (S (S (S (S (S (S (S (S (S (S (S
-         (S (S (S (S (S (S (S (S (S (S (S (S (S (S (S (S (S (S (S (S (S (S (S
-         (S (S (S (S (S (S (S (S (S (S (S (S (S (S (S (S (S (S (S (S (S (S (S
-         (S (S (S (S (S (S (S (S (S (S (S (S (S (S (S (S (S (S (S (S (S (S (S
-         (S (S (S (S (S (S (S (S (S (S (S (S (S (S (S (S (S (S (S (S (S (S (S
-         (S (S
-         O))))))))))))))))))))))))))))))))))))))))))))))))))))))))))))))))))))))))))))))))))))))))))))))))))))))))))))))))))))))))))))))))))))))))))))))))))))))))))))))))))))))))))))))))))))))))))))))))))))))))))))))))))))))))))))))))))))))))))))))))))))))))))
-  then Ok (app (be_enc (S (S (S (S O)))) id) v)
-  else Err e_invalid
+(** val settle : bool -> state -> state **)
 
-(** val spec_vsa : bytes -> (n * bytes) res **)
+let settle legacy s =
+  let n0 = length s.threads in
+  settle_all legacy (settle_all legacy (settle_all legacy s n0) n0) n0
 
-let spec_vsa a =
-  if Nat.leb (S (S (S (S (S O))))) (length a)
-  then Ok ((be_dec (firstn (S (S (S (S O)))) a)), (skipn (S (S (S (S O)))) a))
-  else Err e_invalid
+(** val force_step : bool -> state -> nat -> action -> state **)
 
-(** val spec_new_tlv : n -> bytes -> bytes res **)
+let force_step legacy s i a =
+  match step legacy s i a with
+  | Some s' -> s'
+  | None -> s
 
-let spec_new_tlv t v =
-  if (&&) (Nat.leb (S O) (length v))
-       (Nat.leb (length v) (S (S (S (S (S (S (S (S (S (S (S (S (S (S (S (S (S
-         (S (S (S (S (S (S (S (S (S (S (S (S (S (S (S (S (S (S (S (S (S (S (S
-         (S (S (S (S (S (S (S (S (S (S (S (S (S (S (S (S (S (S (S (S (S (S (S
-         (S (S (S (S (S (S (S (S (S (S (S (S (S (S (S (S (S (S (S (S (S (S (S
-         (S (S (S (S (S (S (S (S (S (S (S (S (S (S (S (S (S (S (S (S (S (S (S
-         (S (S (S (S (S (S (S (S (S (S (S (S (S (S (S (S (S (S (S (S (S (S (S
-         (S (S (S (S (S (S (S (S (S (S (S (S (S (S (S (S (S (S (S (S (S (S (S
-         (S (S (S (S (S (S (S (S (S (S (S (S (S (S (S (S (S (S (S (S (S (S (S
-         (S (S (S (S (S (S (S (S (S (S (S (S (S (S (S (S (S (S (S (S (S (S (S
-         (S (S (S (S (S (S (S (S (S (S (S (S (S (S (S (S (S (S (S (S (S (S (S
-         (S (S (S (S (S (S (S (S (S (S (S (S (S (S (S (S (S (S (S (S (S (S (S
-         (S (S (S (S (S (S
-         O))))))))))))))))))))))))))))))))))))))))))))))))))))))))))))))))))))))))))))))))))))))))))))))))))))))))))))))))))))))))))))))))))))))))))))))))))))))))))))))))))))))))))))))))))))))))))))))))))))))))))))))))))))))))))))))))))))))))))))))))))))))))))))))
-  then Ok (t :: ((N.of_nat (add (length v) (S (S O)))) :: v))
-  else Err e_invalid
+(** val do_hact : bool -> state -> hact -> state **)
 
-(** val spec_tlv6929 : bytes -> (n * bytes) res **)
+let do_hact legacy s h =
+  settle legacy
+    (match h with
+     | HServe c ->
+       let s1 = add_thread s (TServe (c, S_start)) in
+       run_thread legacy (S (S (S (S (S (S (S (S (S (S (S (S (S (S (S (S (S
+         (S (S (S O)))))))))))))))))))) s1 (length s.threads)
+     | HRelease i ->
+       (match nth_error s.threads i with
+        | Some t ->
+          (match t with
+           | TServe (_, pc) ->
+             (match pc with
+              | S_registered -> force_step legacy s i ARun
+              | _ -> s)
+           | _ -> s)
+        | None -> s)
+     | HDeliver (i, drop) ->
+       let s1 = force_step legacy s i (ARead_datagram drop) in
+       if Nat.ltb (length s.threads) (length s1.threads)
+       then run_thread legacy (S (S (S (S (S (S (S (S (S (S (S (S (S (S (S (S
+              (S (S (S (S O)))))))))))))))))))) s1 (length s.threads)
+       else s1
+     | HHandlerDone g ->
+       run_thread legacy (S (S (S (S (S (S (S (S (S (S (S (S (S (S (S (S (S
+         (S (S (S O))))))))))))))))))))
+         (force_step legacy s g AHandler_return) g
+     | HShutdown ->
+       let s1 = add_thread s (TShut (H_start, false)) in
+       run_thread legacy (S (S (S (S (S (S (S (S (S (S (S (S (S (S (S (S (S
+         (S (S (S O)))))))))))))))))))) s1 (length s.threads)
+     | HWait j ->
+       (match nth_error s.threads j with
+        | Some t ->
+          (match t with
+           | TShut (pc, _) ->
+             (match pc with
+              | H_wait -> force_step legacy s j ARun
+              | _ -> s)
+           | _ -> s)
+        | None -> s)
+     | HExpire j -> force_step legacy s j AExpire)
 
-let spec_tlv6929 a = match a with
-| [] -> Err e_invalid
-| t :: l0 ->
-  (match l0 with
-   | [] -> Err e_invalid
-   | l :: v ->
-     if (&&)
-          ((&&) (Nat.leb (S (S (S O))) (length a))
-            (Nat.leb (length a) (S (S (S (S (S (S (S (S (S (S (S (S (S (S (S
-              (S (S (S (S (S (S (S (S (S (S (S (S (S (S (S (S (S (S (S (S (S
-              (S (S (S (S (S (S (S (S (S (S (S (S (S (S (S (S (S (S (S (S (S
-              (S (S (S (S (S (S (S (S (S (S (S (S (S (S (S (S (S (S (S (S (S
-              (S (S (S (S (S (S (S (S (S (S (S (S (S (S (S (S (S (S (S (S (S
-              (S (S (S (S (S (S (S (S (S (S (S (S (S (S (S (S (S (S (S (S (S
-              (S (S (S (S (S (S (S (S (S (S (S (S (S (S (S (S (S (S (S (S (S
-              (S (S (S (S (S (S (S (S (S (S (S (S (S (S (S (S (S (S (S (S (S
-              (S (S (S (S (S (S (S (S (S (S (S (S (S (S (S (S (S (S (S (S (S
-              (S (S (S (S (S (S (S (S (S (S (S (S (S (S (S (S (S (S (S (S (S
-              (S (S (S (S (S (S (S (S (S (S (S (S (S (S (S (S (S (S (S (S (S
-              (S (S (S (S (S (S (S (S (S (S (S (S (S (S (S (S (S (S (S (S (S
-              (S (S (S (S (S (S (S (S (S
-              O)))))))))))))))))))))))))))))))))))))))))))))))))))))))))))))))))))))))))))))))))))))))))))))))))))))))))))))))))))))))))))))))))))))))))))))))))))))))))))))))))))))))))))))))))))))))))))))))))))))))))))))))))))))))))))))))))))))))))))))))))))))))))))))))))
-          (Nat.eqb (N.to_nat l) (length a))
-     then Ok (t, v)
-     else Err e_invalid)
+(** val status : thread -> z **)
 
-(** val byte_bits : n -> bool list **)
+let status = function
+| TServe (_, pc) ->
+  (match pc with
+   | S_registered -> Zpos (XI (XI (XO XH)))
+   | S_reading -> Zpos (XO (XO (XI XH)))
+   | S_returned r ->
+     (match r with
+      | RetShutdown -> Zpos (XI (XO (XI XH)))
+      | RetErr -> Zpos (XO (XI (XI XH))))
+   | _ -> Zpos (XI (XI (XO (XO XH)))))
+| TDgram pc ->
+  (match pc with
+   | D_handler -> Zpos (XI (XO (XI (XO XH))))
+   | D_end -> Zpos (XO (XI (XI (XO XH))))
+   | _ -> Zpos (XI (XO (XI (XI XH)))))
+| TShut (pc, expired) ->
+  (match pc with
+   | H_wait -> Zpos (XI (XI (XI (XI XH))))
+   | H_select -> Zpos (XO (XO (XO (XO (XO XH)))))
+   | H_ret_nil ->
+     if expired
+     then Zpos (XI (XI (XO (XO (XO XH)))))
+     else Zpos (XI (XO (XO (XO (XO XH)))))
+   | H_ret_err -> Zpos (XI (XI (XO (XO (XO XH)))))
+   | _ -> Zpos (XI (XI (XI (XO (XO XH))))))
 
-let byte_bits b =
-  map (fun i -> N.testbit b (N.of_nat i)) ((S (S (S (S (S (S (S
-    O))))))) :: ((S (S (S (S (S (S O)))))) :: ((S (S (S (S (S O))))) :: ((S
-    (S (S (S O)))) :: ((S (S (S O))) :: ((S (S O)) :: ((S
-    O) :: (O :: []))))))))
+(** val run_hacts : bool -> state -> hact list -> z list list **)
 
-(** val bits_of : bytes -> bool list **)
-
-let bits_of l =
-  flat_map byte_bits l
-
-(** val leading_ones : bool list -> nat **)
-
-let rec leading_ones = function
-| [] -> O
-| b :: r -> if b then S (leading_ones r) else O
-
-(** val spec_mask_ones : bytes -> nat option **)
-
-let spec_mask_ones m =
-  let bs = bits_of m in
-  let n0 = leading_ones bs in
-  if forallb negb (skipn n0 bs) then Some n0 else None
-
-(** val clear_low : n -> nat -> n **)
-
-let clear_low b keep =
-  N.sub b
-    (N.modulo b
-      (N.pow (Npos (XO XH))
-        (N.of_nat (sub (S (S (S (S (S (S (S (S O)))))))) keep))))
-
-(** val apply_mask : bytes -> nat -> bytes **)
-
-let rec apply_mask ip ones =
-  match ip with
-  | [] -> []
-  | b :: r ->
-    if Nat.leb (S (S (S (S (S (S (S (S O)))))))) ones
-    then b :: (apply_mask r (sub ones (S (S (S (S (S (S (S (S O))))))))))
-    else (clear_low b ones) :: (apply_mask r O)
-
-(** val mask_of : nat -> nat -> bytes **)
-
-let rec mask_of ones = function
-| O -> []
-| S n' ->
-  if Nat.leb (S (S (S (S (S (S (S (S O)))))))) ones
-  then (Npos (XI (XI (XI (XI (XI (XI (XI
-         XH)))))))) :: (mask_of (sub ones (S (S (S (S (S (S (S (S O)))))))))
-                         n')
-  else (clear_low (Npos (XI (XI (XI (XI (XI (XI (XI XH)))))))) ones) :: 
-         (mask_of O n')
-
-(** val spec_new_ipv6prefix : bytes -> bytes -> bytes res **)
-
-let spec_new_ipv6prefix ip mask0 =
-  if (||)
-       (negb
-         (Nat.eqb (length ip) (S (S (S (S (S (S (S (S (S (S (S (S (S (S (S (S
-           O))))))))))))))))))
-       (negb
-         (Nat.eqb (length mask0) (S (S (S (S (S (S (S (S (S (S (S (S (S (S (S
-           (S O))))))))))))))))))
-  then Err e_invalid
-  else (match spec_mask_ones mask0 with
-        | Some ones ->
-          Ok
-            (N0 :: ((N.of_nat ones) :: (firstn
-                                         (Nat.div
-                                           (add ones (S (S (S (S (S (S (S
-                                             O)))))))) (S (S (S (S (S (S (S
-                                           (S O))))))))) (apply_mask ip ones))))
-        | None -> Err e_invalid)
-
-(** val spec_ipv6prefix : bytes -> (bytes * bytes) res **)
-
-let spec_ipv6prefix = function
-| [] -> Err e_invalid
-| _ :: l ->
-  (match l with
-   | [] -> Err e_invalid
-   | pl :: data ->
-     if (&&)
-          (Nat.leb (length data) (S (S (S (S (S (S (S (S (S (S (S (S (S (S (S
-            (S O)))))))))))))))))
-          (N.leb pl (Npos (XO (XO (XO (XO (XO (XO (XO XH)))))))))
-     then let ip =
-            app data
-              (repeat N0
-                (sub (S (S (S (S (S (S (S (S (S (S (S (S (S (S (S (S
-                  O)))))))))))))))) (length data)))
-          in
-          if beq (apply_mask ip (N.to_nat pl)) ip
-          then Ok (ip,
-                 (mask_of (N.to_nat pl) (S (S (S (S (S (S (S (S (S (S (S (S
-                   (S (S (S (S O))))))))))))))))))
-          else Err e_invalid
-     else Err e_invalid)
+let rec run_hacts legacy s = function
+| [] -> []
+| h :: r ->
+  let s' = do_hact legacy s h in
+  (app (map status s'.threads)
+    ((if Nat.leb (S (S O)) s'.closes then Zpos (XO XH) else Z0) :: ((Z.of_nat
+                                                                    (length
+                                                                    (nodup
+                                                                    Nat.eq_dec
+                                                                    s'.closedc))) :: []))) :: 
+  (run_hacts legacy s' r)
 
 (** val is_key : z -> avp -> bool **)
 
@@ -3916,6 +4251,495 @@ let spec_is_authentic_request h q sec =
        (||) (zmem (Z.of_N c) rfc_verbatim_codes)
          ((&&) (zmem (Z.of_N c) rfc_hashed_request_codes)
            (beq (auth_field q) (h (covered q zero16 sec)))))
+
+type verdict =
+| Acceptable of ((((z * n) * bytes) * bytes) * attrs)
+| Bad of n
+
+(** val classify :
+    (bytes -> bytes) -> bool -> bytes -> bytes -> bytes -> verdict **)
+
+let classify h skip_verify wire sec d =
+  let d0 =
+    firstn (S (S (S (S (S (S (S (S (S (S (S (S (S (S (S (S (S (S (S (S (S (S
+      (S (S (S (S (S (S (S (S (S (S (S (S (S (S (S (S (S (S (S (S (S (S (S (S
+      (S (S (S (S (S (S (S (S (S (S (S (S (S (S (S (S (S (S (S (S (S (S (S (S
+      (S (S (S (S (S (S (S (S (S (S (S (S (S (S (S (S (S (S (S (S (S (S (S (S
+      (S (S (S (S (S (S (S (S (S (S (S (S (S (S (S (S (S (S (S (S (S (S (S (S
+      (S (S (S (S (S (S (S (S (S (S (S (S (S (S (S (S (S (S (S (S (S (S (S (S
+      (S (S (S (S (S (S (S (S (S (S (S (S (S (S (S (S (S (S (S (S (S (S (S (S
+      (S (S (S (S (S (S (S (S (S (S (S (S (S (S (S (S (S (S (S (S (S (S (S (S
+      (S (S (S (S (S (S (S (S (S (S (S (S (S (S (S (S (S (S (S (S (S (S (S (S
+      (S (S (S (S (S (S (S (S (S (S (S (S (S (S (S (S (S (S (S (S (S (S (S (S
+      (S (S (S (S (S (S (S (S (S (S (S (S (S (S (S (S (S (S (S (S (S (S (S (S
+      (S (S (S (S (S (S (S (S (S (S (S (S (S (S (S (S (S (S (S (S (S (S (S (S
+      (S (S (S (S (S (S (S (S (S (S (S (S (S (S (S (S (S (S (S (S (S (S (S (S
+      (S (S (S (S (S (S (S (S (S (S (S (S (S (S (S (S (S (S (S (S (S (S (S (S
+      (S (S (S (S (S (S (S (S (S (S (S (S (S (S (S (S (S (S (S (S (S (S (S (S
+      (S (S (S (S (S (S (S (S (S (S (S (S (S (S (S (S (S (S (S (S (S (S (S (S
+      (S (S (S (S (S (S (S (S (S (S (S (S (S (S (S (S (S (S (S (S (S (S (S (S
+      (S (S (S (S (S (S (S (S (S (S (S (S (S (S (S (S (S (S (S (S (S (S (S (S
+      (S (S (S (S (S (S (S (S (S (S (S (S (S (S (S (S (S (S (S (S (S (S (S (S
+      (S (S (S (S (S (S (S (S (S (S (S (S (S (S (S (S (S (S (S (S (S (S (S (S
+      (S (S (S (S (S (S (S (S (S (S (S (S (S (S (S (S (S (S (S (S (S (S (S (S
+      (S (S (S (S (S (S (S (S (S (S (S (S (S (S (S (S (S (S (S (S (S (S (S (S
+      (S (S (S (S (S (S (S (S (S (S (S (S (S (S (S (S (S (S (S (S (S (S (S (S
+      (S (S (S (S (S (S (S (S (S (S (S (S (S (S (S (S (S (S (S (S (S (S (S (S
+      (S (S (S (S (S (S (S (S (S (S (S (S (S (S (S (S (S (S (S (S (S (S (S (S
+      (S (S (S (S (S (S (S (S (S (S (S (S (S (S (S (S (S (S (S (S (S (S (S (S
+      (S (S (S (S (S (S (S (S (S (S (S (S (S (S (S (S (S (S (S (S (S (S (S (S
+      (S (S (S (S (S (S (S (S (S (S (S (S (S (S (S (S (S (S (S (S (S (S (S (S
+      (S (S (S (S (S (S (S (S (S (S (S (S (S (S (S (S (S (S (S (S (S (S (S (S
+      (S (S (S (S (S (S (S (S (S (S (S (S (S (S (S (S (S (S (S (S (S (S (S (S
+      (S (S (S (S (S (S (S (S (S (S (S (S (S (S (S (S (S (S (S (S (S (S (S (S
+      (S (S (S (S (S (S (S (S (S (S (S (S (S (S (S (S (S (S (S (S (S (S (S (S
+      (S (S (S (S (S (S (S (S (S (S (S (S (S (S (S (S (S (S (S (S (S (S (S (S
+      (S (S (S (S (S (S (S (S (S (S (S (S (S (S (S (S (S (S (S (S (S (S (S (S
+      (S (S (S (S (S (S (S (S (S (S (S (S (S (S (S (S (S (S (S (S (S (S (S (S
+      (S (S (S (S (S (S (S (S (S (S (S (S (S (S (S (S (S (S (S (S (S (S (S (S
+      (S (S (S (S (S (S (S (S (S (S (S (S (S (S (S (S (S (S (S (S (S (S (S (S
+      (S (S (S (S (S (S (S (S (S (S (S (S (S (S (S (S (S (S (S (S (S (S (S (S
+      (S (S (S (S (S (S (S (S (S (S (S (S (S (S (S (S (S (S (S (S (S (S (S (S
+      (S (S (S (S (S (S (S (S (S (S (S (S (S (S (S (S (S (S (S (S (S (S (S (S
+      (S (S (S (S (S (S (S (S (S (S (S (S (S (S (S (S (S (S (S (S (S (S (S (S
+      (S (S (S (S (S (S (S (S (S (S (S (S (S (S (S (S (S (S (S (S (S (S (S (S
+      (S (S (S (S (S (S (S (S (S (S (S (S (S (S (S (S (S (S (S (S (S (S (S (S
+      (S (S (S (S (S (S (S (S (S (S (S (S (S (S (S (S (S (S (S (S (S (S (S (S
+      (S (S (S (S (S (S (S (S (S (S (S (S (S (S (S (S (S (S (S (S (S (S (S (S
+      (S (S (S (S (S (S (S (S (S (S (S (S (S (S (S (S (S (S (S (S (S (S (S (S
+      (S (S (S (S (S (S (S (S (S (S (S (S (S (S (S (S (S (S (S (S (S (S (S (S
+      (S (S (S (S (S (S (S (S (S (S (S (S (S (S (S (S (S (S (S (S (S (S (S (S
+      (S (S (S (S (S (S (S (S (S (S (S (S (S (S (S (S (S (S (S (S (S (S (S (S
+      (S (S (S (S (S (S (S (S (S (S (S (S (S (S (S (S (S (S (S (S (S (S (S (S
+      (S (S (S (S (S (S (S (S (S (S (S (S (S (S (S (S (S (S (S (S (S (S (S (S
+      (S (S (S (S (S (S (S (S (S (S (S (S (S (S (S (S (S (S (S (S (S (S (S (S
+      (S (S (S (S (S (S (S (S (S (S (S (S (S (S (S (S (S (S (S (S (S (S (S (S
+      (S (S (S (S (S (S (S (S (S (S (S (S (S (S (S (S (S (S (S (S (S (S (S (S
+      (S (S (S (S (S (S (S (S (S (S (S (S (S (S (S (S (S (S (S (S (S (S (S (S
+      (S (S (S (S (S (S (S (S (S (S (S (S (S (S (S (S (S (S (S (S (S (S (S (S
+      (S (S (S (S (S (S (S (S (S (S (S (S (S (S (S (S (S (S (S (S (S (S (S (S
+      (S (S (S (S (S (S (S (S (S (S (S (S (S (S (S (S (S (S (S (S (S (S (S (S
+      (S (S (S (S (S (S (S (S (S (S (S (S (S (S (S (S (S (S (S (S (S (S (S (S
+      (S (S (S (S (S (S (S (S (S (S (S (S (S (S (S (S (S (S (S (S (S (S (S (S
+      (S (S (S (S (S (S (S (S (S (S (S (S (S (S (S (S (S (S (S (S (S (S (S (S
+      (S (S (S (S (S (S (S (S (S (S (S (S (S (S (S (S (S (S (S (S (S (S (S (S
+      (S (S (S (S (S (S (S (S (S (S (S (S (S (S (S (S (S (S (S (S (S (S (S (S
+      (S (S (S (S (S (S (S (S (S (S (S (S (S (S (S (S (S (S (S (S (S (S (S (S
+      (S (S (S (S (S (S (S (S (S (S (S (S (S (S (S (S (S (S (S (S (S (S (S (S
+      (S (S (S (S (S (S (S (S (S (S (S (S (S (S (S (S (S (S (S (S (S (S (S (S
+      (S (S (S (S (S (S (S (S (S (S (S (S (S (S (S (S (S (S (S (S (S (S (S (S
+      (S (S (S (S (S (S (S (S (S (S (S (S (S (S (S (S (S (S (S (S (S (S (S (S
+      (S (S (S (S (S (S (S (S (S (S (S (S (S (S (S (S (S (S (S (S (S (S (S (S
+      (S (S (S (S (S (S (S (S (S (S (S (S (S (S (S (S (S (S (S (S (S (S (S (S
+      (S (S (S (S (S (S (S (S (S (S (S (S (S (S (S (S (S (S (S (S (S (S (S (S
+      (S (S (S (S (S (S (S (S (S (S (S (S (S (S (S (S (S (S (S (S (S (S (S (S
+      (S (S (S (S (S (S (S (S (S (S (S (S (S (S (S (S (S (S (S (S (S (S (S (S
+      (S (S (S (S (S (S (S (S (S (S (S (S (S (S (S (S (S (S (S (S (S (S (S (S
+      (S (S (S (S (S (S (S (S (S (S (S (S (S (S (S (S (S (S (S (S (S (S (S (S
+      (S (S (S (S (S (S (S (S (S (S (S (S (S (S (S (S (S (S (S (S (S (S (S (S
+      (S (S (S (S (S (S (S (S (S (S (S (S (S (S (S (S (S (S (S (S (S (S (S (S
+      (S (S (S (S (S (S (S (S (S (S (S (S (S (S (S (S (S (S (S (S (S (S (S (S
+      (S (S (S (S (S (S (S (S (S (S (S (S (S (S (S (S (S (S (S (S (S (S (S (S
+      (S (S (S (S (S (S (S (S (S (S (S (S (S (S (S (S (S (S (S (S (S (S (S (S
+      (S (S (S (S (S (S (S (S (S (S (S (S (S (S (S (S (S (S (S (S (S (S (S (S
+      (S (S (S (S (S (S (S (S (S (S (S (S (S (S (S (S (S (S (S (S (S (S (S (S
+      (S (S (S (S (S (S (S (S (S (S (S (S (S (S (S (S (S (S (S (S (S (S (S (S
+      (S (S (S (S (S (S (S (S (S (S (S (S (S (S (S (S (S (S (S (S (S (S (S (S
+      (S (S (S (S (S (S (S (S (S (S (S (S (S (S (S (S (S (S (S (S (S (S (S (S
+      (S (S (S (S (S (S (S (S (S (S (S (S (S (S (S (S (S (S (S (S (S (S (S (S
+      (S (S (S (S (S (S (S (S (S (S (S (S (S (S (S (S (S (S (S (S (S (S (S (S
+      (S (S (S (S (S (S (S (S (S (S (S (S (S (S (S (S (S (S (S (S (S (S (S (S
+      (S (S (S (S (S (S (S (S (S (S (S (S (S (S (S (S (S (S (S (S (S (S (S (S
+      (S (S (S (S (S (S (S (S (S (S (S (S (S (S (S (S (S (S (S (S (S (S (S (S
+      (S (S (S (S (S (S (S (S (S (S (S (S (S (S (S (S (S (S (S (S (S (S (S (S
+      (S (S (S (S (S (S (S (S (S (S (S (S (S (S (S (S (S (S (S (S (S (S (S (S
+      (S (S (S (S (S (S (S (S (S (S (S (S (S (S (S (S (S (S (S (S (S (S (S (S
+      (S (S (S (S (S (S (S (S (S (S (S (S (S (S (S (S (S (S (S (S (S (S (S (S
+      (S (S (S (S (S (S (S (S (S (S (S (S (S (S (S (S (S (S (S (S (S (S (S (S
+      (S (S (S (S (S (S (S (S (S (S (S (S (S (S (S (S (S (S (S (S (S (S (S (S
+      (S (S (S (S (S (S (S (S (S (S (S (S (S (S (S (S (S (S (S (S (S (S (S (S
+      (S (S (S (S (S (S (S (S (S (S (S (S (S (S (S (S (S (S (S (S (S (S (S (S
+      (S (S (S (S (S (S (S (S (S (S (S (S (S (S (S (S (S (S (S (S (S (S (S (S
+      (S (S (S (S (S (S (S (S (S (S (S (S (S (S (S (S (S (S (S (S (S (S (S (S
+      (S (S (S (S (S (S (S (S (S (S (S (S (S (S (S (S (S (S (S (S (S (S (S (S
+      (S (S (S (S (S (S (S (S (S (S (S (S (S (S (S (S (S (S (S (S (S (S (S (S
+      (S (S (S (S (S (S (S (S (S (S (S (S (S (S (S (S (S (S (S (S (S (S (S (S
+      (S (S (S (S (S (S (S (S (S (S (S (S (S (S (S (S (S (S (S (S (S (S (S (S
+      (S (S (S (S (S (S (S (S (S (S (S (S (S (S (S (S (S (S (S (S (S (S (S (S
+      (S (S (S (S (S (S (S (S (S (S (S (S (S (S (S (S (S (S (S (S (S (S (S (S
+      (S (S (S (S (S (S (S (S (S (S (S (S (S (S (S (S (S (S (S (S (S (S (S (S
+      (S (S (S (S (S (S (S (S (S (S (S (S (S (S (S (S (S (S (S (S (S (S (S (S
+      (S (S (S (S (S (S (S (S (S (S (S (S (S (S (S (S (S (S (S (S (S (S (S (S
+      (S (S (S (S (S (S (S (S (S (S (S (S (S (S (S (S (S (S (S (S (S (S (S (S
+      (S (S (S (S (S (S (S (S (S (S (S (S (S (S (S (S (S (S (S (S (S (S (S (S
+      (S (S (S (S (S (S (S (S (S (S (S (S (S (S (S (S (S (S (S (S (S (S (S (S
+      (S (S (S (S (S (S (S (S (S (S (S (S (S (S (S (S (S (S (S (S (S (S (S (S
+      (S (S (S (S (S (S (S (S (S (S (S (S (S (S (S (S (S (S (S (S (S (S (S (S
+      (S (S (S (S (S (S (S (S (S (S (S (S (S (S (S (S (S (S (S (S (S (S (S (S
+      (S (S (S (S (S (S (S (S (S (S (S (S (S (S (S (S (S (S (S (S (S (S (S (S
+      (S (S (S (S (S (S (S (S (S (S (S (S (S (S (S (S (S (S (S (S (S (S (S (S
+      (S (S (S (S (S (S (S (S (S (S (S (S (S (S (S (S (S (S (S (S (S (S (S (S
+      (S (S (S (S (S (S (S (S (S (S (S (S (S (S (S (S (S (S (S (S (S (S (S (S
+      (S (S (S (S (S (S (S (S (S (S (S (S (S (S (S (S (S (S (S (S (S (S (S (S
+      (S (S (S (S (S (S (S (S (S (S (S (S (S (S (S (S (S (S (S (S (S (S (S (S
+      (S (S (S (S (S (S (S (S (S (S (S (S (S (S (S (S (S (S (S (S (S (S (S (S
+      (S (S (S (S (S (S (S (S (S (S (S (S (S (S (S (S (S (S (S (S (S (S (S (S
+      (S (S (S (S (S (S (S (S (S (S (S (S (S (S (S (S (S (S (S (S (S (S (S (S
+      (S (S (S (S (S (S (S (S (S (S (S (S (S (S (S (S (S (S (S (S (S (S (S (S
+      (S (S (S (S (S (S (S (S (S (S (S (S (S (S (S (S (S (S (S (S (S (S (S (S
+      (S (S (S (S (S (S (S (S (S (S (S (S (S (S (S (S (S (S (S (S (S (S (S (S
+      (S (S (S (S (S (S (S (S (S (S (S (S (S (S (S (S (S (S (S (S (S (S (S (S
+      (S (S (S (S (S (S (S (S (S (S (S (S (S (S (S (S (S (S (S (S (S (S (S (S
+      (S (S (S (S (S (S (S (S (S (S (S (S (S (S (S (S (S (S (S (S (S (S (S (S
+      (S (S (S (S (S (S (S (S (S (S (S (S (S (S (S (S (S (S (S (S (S (S (S (S
+      (S (S (S (S (S (S (S (S (S (S (S (S (S (S (S (S (S (S (S (S (S (S (S (S
+      (S (S (S (S (S (S (S (S (S (S (S (S (S (S (S (S (S (S (S (S (S (S (S (S
+      (S (S (S (S (S (S (S (S (S (S (S (S (S (S (S (S (S (S (S (S (S (S (S (S
+      (S (S (S (S (S (S (S (S (S (S (S (S (S (S (S (S (S (S (S (S (S (S (S (S
+      (S (S (S (S (S (S (S (S (S (S (S (S (S (S (S (S (S (S (S (S (S (S (S (S
+      (S (S (S (S (S (S (S (S (S (S (S (S (S (S (S (S (S (S (S (S (S (S (S (S
+      (S (S (S (S (S (S (S (S (S (S (S (S (S (S (S (S (S (S (S (S (S (S (S (S
+      (S (S (S (S (S (S (S (S (S (S (S (S (S (S (S (S (S (S (S (S (S (S (S (S
+      (S (S (S (S (S (S (S (S (S (S (S (S (S (S (S (S (S (S (S (S (S (S (S (S
+      (S (S (S (S (S (S (S (S (S (S (S (S (S (S (S (S (S (S (S (S (S (S (S (S
+      (S (S (S (S (S (S (S (S (S (S (S (S (S (S (S (S (S (S (S (S (S (S (S (S
+      (S (S (S (S (S (S (S (S (S (S (S (S (S (S (S (S (S (S (S (S (S (S (S (S
+      (S (S (S (S (S (S (S (S (S (S (S (S (S (S (S (S (S (S (S (S (S (S (S (S
+      (S (S (S (S (S (S (S (S (S (S (S (S (S (S (S (S (S (S (S (S (S (S (S (S
+      (S (S (S (S (S (S (S (S (S (S (S (S (S (S (S (S (S (S (S (S (S (S (S (S
+      (S (S (S (S (S (S (S (S (S (S (S (S (S (S (S (S (S (S (S (S (S (S (S (S
+      (S (S (S (S (S (S (S (S (S (S (S (S (S (S (S (S (S (S (S (S (S (S (S (S
+      (S (S (S (S (S (S (S (S (S (S (S (S (S (S (S (S (S (S (S (S (S (S (S (S
+      (S (S (S (S (S (S (S (S (S (S (S (S (S (S (S (S (S (S (S (S (S (S (S (S
+      (S (S (S (S (S (S (S (S (S (S (S (S (S (S (S (S (S (S (S (S (S (S (S (S
+      (S (S (S (S (S (S (S (S (S (S (S (S (S (S (S (S (S (S (S (S (S (S (S (S
+      (S (S (S (S (S (S (S (S (S (S (S (S (S (S (S (S (S (S (S (S (S (S (S (S
+      (S (S (S (S (S (S (S (S (S (S (S (S (S (S (S (S (S (S (S (S (S (S (S (S
+      (S (S (S (S (S (S (S (S (S (S (S (S (S (S (S (S (S (S (S (S (S (S (S (S
+      (S (S (S (S (S (S (S (S (S (S (S (S (S (S (S (S (S (S (S (S (S (S (S (S
+      (S (S (S (S (S (S (S (S (S (S (S (S (S (S (S (S (S (S (S (S (S (S (S (S
+      (S (S (S (S (S (S (S (S (S (S (S (S (S (S (S (S (S (S (S (S (S (S (S (S
+      (S (S (S (S (S (S (S (S (S (S (S (S (S (S (S (S (S (S (S (S (S (S (S (S
+      (S (S (S (S (S (S (S (S (S (S (S (S (S (S (S (S (S (S (S (S (S (S (S (S
+      (S (S (S (S (S (S (S (S (S (S (S (S (S (S (S (S (S (S (S (S (S (S (S (S
+      (S (S (S (S (S (S (S (S (S (S (S (S (S (S (S (S (S (S (S (S (S (S (S (S
+      (S (S (S (S (S (S (S (S (S (S (S (S (S (S (S (S (S (S (S (S (S (S (S (S
+      (S (S (S (S (S (S (S (S (S (S (S (S (S (S (S (S (S (S (S (S (S (S (S (S
+      (S (S (S (S (S (S (S (S (S (S (S (S (S (S (S (S (S (S (S (S (S (S (S (S
+      (S (S (S (S (S (S (S (S (S (S (S (S (S (S (S (S (S (S (S (S (S (S (S (S
+      (S (S (S (S (S (S (S (S (S (S (S (S (S (S (S (S (S (S (S (S (S (S (S (S
+      (S (S (S (S (S (S (S (S (S (S (S (S (S (S (S (S (S (S (S (S (S (S (S (S
+      (S (S (S (S (S (S (S (S (S (S (S (S (S (S (S (S (S (S (S (S (S (S (S (S
+      (S (S (S (S (S (S (S (S (S (S (S (S (S (S (S (S (S (S (S (S (S (S (S (S
+      (S (S (S (S (S (S (S (S (S (S (S (S (S (S (S (S (S (S
+      O))))))))))))))))))))))))))))))))))))))))))))))))))))))))))))))))))))))))))))))))))))))))))))))))))))))))))))))))))))))))))))))))))))))))))))))))))))))))))))))))))))))))))))))))))))))))))))))))))))))))))))))))))))))))))))))))))))))))))))))))))))))))))))))))))))))))))))))))))))))))))))))))))))))))))))))))))))))))))))))))))))))))))))))))))))))))))))))))))))))))))))))))))))))))))))))))))))))))))))))))))))))))))))))))))))))))))))))))))))))))))))))))))))))))))))))))))))))))))))))))))))))))))))))))))))))))))))))))))))))))))))))))))))))))))))))))))))))))))))))))))))))))))))))))))))))))))))))))))))))))))))))))))))))))))))))))))))))))))))))))))))))))))))))))))))))))))))))))))))))))))))))))))))))))))))))))))))))))))))))))))))))))))))))))))))))))))))))))))))))))))))))))))))))))))))))))))))))))))))))))))))))))))))))))))))))))))))))))))))))))))))))))))))))))))))))))))))))))))))))))))))))))))))))))))))))))))))))))))))))))))))))))))))))))))))))))))))))))))))))))))))))))))))))))))))))))))))))))))))))))))))))))))))))))))))))))))))))))))))))))))))))))))))))))))))))))))))))))))))))))))))))))))))))))))))))))))))))))))))))))))))))))))))))))))))))))))))))))))))))))))))))))))))))))))))))))))))))))))))))))))))))))))))))))))))))))))))))))))))))))))))))))))))))))))))))))))))))))))))))))))))))))))))))))))))))))))))))))))))))))))))))))))))))))))))))))))))))))))))))))))))))))))))))))))))))))))))))))))))))))))))))))))))))))))))))))))))))))))))))))))))))))))))))))))))))))))))))))))))))))))))))))))))))))))))))))))))))))))))))))))))))))))))))))))))))))))))))))))))))))))))))))))))))))))))))))))))))))))))))))))))))))))))))))))))))))))))))))))))))))))))))))))))))))))))))))))))))))))))))))))))))))))))))))))))))))))))))))))))))))))))))))))))))))))))))))))))))))))))))))))))))))))))))))))))))))))))))))))))))))))))))))))))))))))))))))))))))))))))))))))))))))))))))))))))))))))))))))))))))))))))))))))))))))))))))))))))))))))))))))))))))))))))))))))))))))))))))))))))))))))))))))))))))))))))))))))))))))))))))))))))))))))))))))))))))))))))))))))))))))))))))))))))))))))))))))))))))))))))))))))))))))))))))))))))))))))))))))))))))))))))))))))))))))))))))))))))))))))))))))))))))))))))))))))))))))))))))))))))))))))))))))))))))))))))))))))))))))))))))))))))))))))))))))))))))))))))))))))))))))))))))))))))))))))))))))))))))))))))))))))))))))))))))))))))))))))))))))))))))))))))))))))))))))))))))))))))))))))))))))))))))))))))))))))))))))))))))))))))))))))))))))))))))))))))))))))))))))))))))))))))))))))))))))))))))))))))))))))))))))))))))))))))))))))))))))))))))))))))))))))))))))))))))))))))))))))))))))))))))))))))))))))))))))))))))))))))))))))))))))))))))))))))))))))))))))))))))))))))))))))))))))))))))))))))))))))))))))))))))))))))))))))))))))))))))))))))))))))))))))))))))))))))))))))))))))))))))))))))))))))))))))))))))))))))))))))))))))))))))))))))))))))))))))))))))))))))))))))))))))))))))))))))))))))))))))))))))))))))))))))))))))))))))))))))))))))))))))))))))))))))))))))))))))))))))))))))))))))))))))))))))))))))))))))))))))))))))))))))))))))))))))))))))))))))))))))))))))))))))))))))))))))))))))))))))))))))))))))))))))))))))))))))))))))))))))))))))))))))))))))))))))))))))))))))))))))))))))))))))))))))))))))))))))))))))))))))))))))))))))))))))))))))))))))))))))))))))))))))))))))))))))))))))))))))))))))))))))))))))))))))))))))))))))))))))))))))))))))))))))))))))))))))))))))))))))))))))))))))))))))))))))))))))))))))))))))))))))))))))))))))))))))))))))))))))))))))))))))))))))))))))))))))))))))))))))))))))))))))))))))))))))))))))))))))))))))))))))))))))))))))))))))))))))))))))))))))))))))))))))))))))))))))))))))))))))))))))))))))))))))))))))))))))))))))))))))))))))))))))))))))))))))))))))))))))))))))))))))))))))))))))))))))))))))))))))))))))))))))))))))))))))))))))))))))))))))))))))))))))))))))))))))))))))))))))))))))))))))))))))))))))))))))))))))))))))))))))))))))))))))))))))))))))))))))))))))))))))))))))))))))))))))))))))))))))))))))))))))))))))))))))))))))))))))))))))))))))))))))))))))))))))))))))))))))))))))))))))))))))))))))))))))))))))))))))))))))))))))))))))))))))))))))))))
+      d
+  in
+  (match spec_parse d0 sec with
+   | Ok t ->
+     if (||) skip_verify (spec_is_authentic_response h d0 wire sec)
+     then Acceptable t
+     else Bad (Npos (XI (XO (XO XH))))
+   | Err e -> Bad e
+   | Panic -> Bad (Npos (XO (XI (XO (XO (XO (XI XH)))))))
+   | OutOfFuel -> Bad (Npos (XI (XI (XO (XO (XO (XI XH))))))))
+
+type soutcome =
+| SReturned of ((((z * n) * bytes) * bytes) * attrs) * nat
+| SFailed of n * nat
+| SWaiting of z
+
+(** val spec_recv : verdict list -> nat option -> z -> nat -> soutcome **)
+
+let rec spec_recv vs budget seen i =
+  match vs with
+  | [] -> SWaiting seen
+  | v :: r ->
+    (match v with
+     | Acceptable t -> SReturned (t, i)
+     | Bad e ->
+       (match budget with
+        | Some n0 ->
+          (match n0 with
+           | O -> SFailed (e, i)
+           | S n1 ->
+             (match n1 with
+              | O -> SFailed (e, i)
+              | S b -> spec_recv r (Some (S b)) (Z.add seen (Zpos XH)) (S i)))
+        | None -> spec_recv r None (Z.add seen (Zpos XH)) (S i)))
+
+(** val spec_exchange_recv :
+    (bytes -> bytes) -> z -> bool -> bytes -> bytes -> bytes list -> soutcome **)
+
+let spec_exchange_recv h max_errors skip_verify wire sec ds =
+  spec_recv (map (classify h skip_verify wire sec) ds)
+    (if Z.ltb Z0 max_errors then Some (Z.to_nat max_errors) else None) Z0 O
+
+(** val spec_dec_uint : nat -> bytes -> n res **)
+
+let spec_dec_uint k a =
+  if Nat.eqb (length a) k then Ok (be_dec a) else Err e_invalid
+
+(** val spec_enc_uint : nat -> n -> bytes **)
+
+let spec_enc_uint =
+  be_enc
+
+(** val spec_new_octets : bytes -> bytes res **)
+
+let spec_new_octets s =
+  if Nat.leb (length s) (S (S (S (S (S (S (S (S (S (S (S (S (S (S (S (S (S (S
+       (S (S (S (S (S (S (S (S (S (S (S (S (S (S (S (S (S (S (S (S (S (S (S
+       (S (S (S (S (S (S (S (S (S (S (S (S (S (S (S (S (S (S (S (S (S (S (S
+       (S (S (S (S (S (S (S (S (S (S (S (S (S (S (S (S (S (S (S (S (S (S (S
+       (S (S (S (S (S (S (S (S (S (S (S (S (S (S (S (S (S (S (S (S (S (S (S
+       (S (S (S (S (S (S (S (S (S (S (S (S (S (S (S (S (S (S (S (S (S (S (S
+       (S (S (S (S (S (S (S (S (S (S (S (S (S (S (S (S (S (S (S (S (S (S (S
+       (S (S (S (S (S (S (S (S (S (S (S (S (S (S (S (S (S (S (S (S (S (S (S
+       (S (S (S (S (S (S (S (S (S (S (S (S (S (S (S (S (S (S (S (S (S (S (S
+       (S (S (S (S (S (S (S (S (S (S (S (S (S (S (S (S (S (S (S (S (S (S (S
+       (S (S (S (S (S (S (S (S (S (S (S (S (S (S (S (S (S (S (S (S (S (S (S
+       (S (S (S (S (S
+       O)))))))))))))))))))))))))))))))))))))))))))))))))))))))))))))))))))))))))))))))))))))))))))))))))))))))))))))))))))))))))))))))))))))))))))))))))))))))))))))))))))))))))))))))))))))))))))))))))))))))))))))))))))))))))))))))))))))))))))))))))))))))))))))
+  then Ok s
+  else Err e_invalid
+
+(** val v4_mapped_prefix : bytes **)
+
+let v4_mapped_prefix =
+  N0 :: (N0 :: (N0 :: (N0 :: (N0 :: (N0 :: (N0 :: (N0 :: (N0 :: (N0 :: ((Npos
+    (XI (XI (XI (XI (XI (XI (XI XH)))))))) :: ((Npos (XI (XI (XI (XI (XI (XI
+    (XI XH)))))))) :: [])))))))))))
+
+(** val ip_canon : bytes -> bytes option **)
+
+let ip_canon ip =
+  if Nat.eqb (length ip) (S (S (S (S O))))
+  then Some (app v4_mapped_prefix ip)
+  else if Nat.eqb (length ip) (S (S (S (S (S (S (S (S (S (S (S (S (S (S (S (S
+            O))))))))))))))))
+       then Some ip
+       else None
+
+(** val spec_new_ipaddr : bytes -> bytes res **)
+
+let spec_new_ipaddr ip =
+  if Nat.eqb (length ip) (S (S (S (S O))))
+  then Ok ip
+  else if (&&)
+            (Nat.eqb (length ip) (S (S (S (S (S (S (S (S (S (S (S (S (S (S (S
+              (S O)))))))))))))))))
+            (beq
+              (firstn (S (S (S (S (S (S (S (S (S (S (S (S O)))))))))))) ip)
+              v4_mapped_prefix)
+       then Ok (skipn (S (S (S (S (S (S (S (S (S (S (S (S O)))))))))))) ip)
+       else Err e_invalid
+
+(** val spec_fixed : nat -> bytes -> bytes res **)
+
+let spec_fixed k a =
+  if Nat.eqb (length a) k then Ok a else Err e_invalid
+
+(** val spec_new_ipv6addr : bytes -> bytes res **)
+
+let spec_new_ipv6addr ip =
+  match ip_canon ip with
+  | Some c -> Ok c
+  | None -> Err e_invalid
+
+(** val spec_new_date : z -> bytes res **)
+
+let spec_new_date unix =
+  if (&&) (Z.leb Z0 unix)
+       (Z.leb unix (Zpos (XI (XI (XI (XI (XI (XI (XI (XI (XI (XI (XI (XI (XI
+         (XI (XI (XI (XI (XI (XI (XI (XI (XI (XI (XI (XI (XI (XI (XI (XI (XI
+         (XI XH)))))))))))))))))))))))))))))))))
+  then Ok (be_enc (S (S (S (S O)))) (Z.to_N unix))
+  else Err e_invalid
+
+(** val spec_date : bytes -> z res **)
+
+let spec_date a =
+  if Nat.eqb (length a) (S (S (S (S O))))
+  then Ok (Z.of_N (be_dec a))
+  else Err e_invalid
+
+(** val spec_new_vsa : n -> bytes -> bytes res **)
+
+let spec_new_vsa id v =
+  if (&&) (Nat.leb (S O) (length v))
+       (Nat.leb (length v) (S (S (S (S (S (S (S (S (S (S (S (S (S (S (S (S (S
+         (S (S (S (S (S (S (S (S (S (S (S (S (S (S (S (S (S (S (S (S (S (S (S
+         (S (S (S (S (S (S (S (S (S (S (S (S (S (S (S (S (S (S (S (S (S (S (S
+         (S (S (S (S (S (S (S (S (S (S (S (S (S (S (S (S (S (S (S (S (S (S (S
+         (S (S (S (S (S (S (S (S (S (S (S (S (S (S (S (S (S (S (S (S (S (S (S
+         (S (S (S (S (S (S (S (S (S (S (S (S (S (S (S (S (S (S (S (S (S (S (S
+         (S (S (S (S (S (S (S (S (S (S (S (S (S (S (S (S (S (S (S (S (S (S (S
+         (S (S (S (S (S (S (S (S (S (S (S (S (S (S (S (S (S (S (S (S (S (S (S
+         (S (S (S (S (S (S (S (S (S (S (S (S (S (S (S (S (S (S (S (S (S (S (S
+         (S (S (S (S (S (S (S (S (S (S (S (S (S (S (S (S (S (S (S (S (S (S (S
+         (S (S (S (S (S (S (S (S (S (S (S (S (S (S (S (S (S (S (S (S (S (S (S
+         (S (S
+         O))))))))))))))))))))))))))))))))))))))))))))))))))))))))))))))))))))))))))))))))))))))))))))))))))))))))))))))))))))))))))))))))))))))))))))))))))))))))))))))))))))))))))))))))))))))))))))))))))))))))))))))))))))))))))))))))))))))))))))))))))))))))))
+  then Ok (app (be_enc (S (S (S (S O)))) id) v)
+  else Err e_invalid
+
+(** val spec_vsa : bytes -> (n * bytes) res **)
+
+let spec_vsa a =
+  if Nat.leb (S (S (S (S (S O))))) (length a)
+  then Ok ((be_dec (firstn (S (S (S (S O)))) a)), (skipn (S (S (S (S O)))) a))
+  else Err e_invalid
+
+(** val spec_new_tlv : n -> bytes -> bytes res **)
+
+let spec_new_tlv t v =
+  if (&&) (Nat.leb (S O) (length v))
+       (Nat.leb (length v) (S (S (S (S (S (S (S (S (S (S (S (S (S (S (S (S (S
+         (S (S (S (S (S (S (S (S (S (S (S (S (S (S (S (S (S (S (S (S (S (S (S
+         (S (S (S (S (S (S (S (S (S (S (S (S (S (S (S (S (S (S (S (S (S (S (S
+         (S (S (S (S (S (S (S (S (S (S (S (S (S (S (S (S (S (S (S (S (S (S (S
+         (S (S (S (S (S (S (S (S (S (S (S (S (S (S (S (S (S (S (S (S (S (S (S
+         (S (S (S (S (S (S (S (S (S (S (S (S (S (S (S (S (S (S (S (S (S (S (S
+         (S (S (S (S (S (S (S (S (S (S (S (S (S (S (S (S (S (S (S (S (S (S (S
+         (S (S (S (S (S (S (S (S (S (S (S (S (S (S (S (S (S (S (S (S (S (S (S
+         (S (S (S (S (S (S (S (S (S (S (S (S (S (S (S (S (S (S (S (S (S (S (S
+         (S (S (S (S (S (S (S (S (S (S (S (S (S (S (S (S (S (S (S (S (S (S (S
+         (S (S (S (S (S (S (S (S (S (S (S (S (S (S (S (S (S (S (S (S (S (S (S
+         (S (S (S (S (S (S
+         O))))))))))))))))))))))))))))))))))))))))))))))))))))))))))))))))))))))))))))))))))))))))))))))))))))))))))))))))))))))))))))))))))))))))))))))))))))))))))))))))))))))))))))))))))))))))))))))))))))))))))))))))))))))))))))))))))))))))))))))))))))))))))))))
+  then Ok (t :: ((N.of_nat (add (length v) (S (S O)))) :: v))
+  else Err e_invalid
+
+(** val spec_tlv6929 : bytes -> (n * bytes) res **)
+
+let spec_tlv6929 a = match a with
+| [] -> Err e_invalid
+| t :: l0 ->
+  (match l0 with
+   | [] -> Err e_invalid
+   | l :: v ->
+     if (&&)
+          ((&&) (Nat.leb (S (S (S O))) (length a))
+            (Nat.leb (length a) (S (S (S (S (S (S (S (S (S (S (S (S (S (S (S
+              (S (S (S (S (S (S (S (S (S (S (S (S (S (S (S (S (S (S (S (S (S
+              (S (S (S (S (S (S (S (S (S (S (S (S (S (S (S (S (S (S (S (S (S
+              (S (S (S (S (S (S (S (S (S (S (S (S (S (S (S (S (S (S (S (S (S
+              (S (S (S (S (S (S (S (S (S (S (S (S (S (S (S (S (S (S (S (S (S
+              (S (S (S (S (S (S (S (S (S (S (S (S (S (S (S (S (S (S (S (S (S
+              (S (S (S (S (S (S (S (S (S (S (S (S (S (S (S (S (S (S (S (S (S
+              (S (S (S (S (S (S (S (S (S (S (S (S (S (S (S (S (S (S (S (S (S
+              (S (S (S (S (S (S (S (S (S (S (S (S (S (S (S (S (S (S (S (S (S
+              (S (S (S (S (S (S (S (S (S (S (S (S (S (S (S (S (S (S (S (S (S
+              (S (S (S (S (S (S (S (S (S (S (S (S (S (S (S (S (S (S (S (S (S
+              (S (S (S (S (S (S (S (S (S (S (S (S (S (S (S (S (S (S (S (S (S
+              (S (S (S (S (S (S (S (S (S
+              O)))))))))))))))))))))))))))))))))))))))))))))))))))))))))))))))))))))))))))))))))))))))))))))))))))))))))))))))))))))))))))))))))))))))))))))))))))))))))))))))))))))))))))))))))))))))))))))))))))))))))))))))))))))))))))))))))))))))))))))))))))))))))))))))))
+          (Nat.eqb (N.to_nat l) (length a))
+     then Ok (t, v)
+     else Err e_invalid)
+
+(** val byte_bits : n -> bool list **)
+
+let byte_bits b =
+  map (fun i -> N.testbit b (N.of_nat i)) ((S (S (S (S (S (S (S
+    O))))))) :: ((S (S (S (S (S (S O)))))) :: ((S (S (S (S (S O))))) :: ((S
+    (S (S (S O)))) :: ((S (S (S O))) :: ((S (S O)) :: ((S
+    O) :: (O :: []))))))))
+
+(** val bits_of : bytes -> bool list **)
+
+let bits_of l =
+  flat_map byte_bits l
+
+(** val leading_ones : bool list -> nat **)
+
+let rec leading_ones = function
+| [] -> O
+| b :: r -> if b then S (leading_ones r) else O
+
+(** val spec_mask_ones : bytes -> nat option **)
+
+let spec_mask_ones m =
+  let bs = bits_of m in
+  let n0 = leading_ones bs in
+  if forallb negb (skipn n0 bs) then Some n0 else None
+
+(** val clear_low : n -> nat -> n **)
+
+let clear_low b keep =
+  N.sub b
+    (N.modulo b
+      (N.pow (Npos (XO XH))
+        (N.of_nat (sub (S (S (S (S (S (S (S (S O)))))))) keep))))
+
+(** val apply_mask : bytes -> nat -> bytes **)
+
+let rec apply_mask ip ones =
+  match ip with
+  | [] -> []
+  | b :: r ->
+    if Nat.leb (S (S (S (S (S (S (S (S O)))))))) ones
+    then b :: (apply_mask r (sub ones (S (S (S (S (S (S (S (S O))))))))))
+    else (clear_low b ones) :: (apply_mask r O)
+
+(** val mask_of : nat -> nat -> bytes **)
+
+let rec mask_of ones = function
+| O -> []
+| S n' ->
+  if Nat.leb (S (S (S (S (S (S (S (S O)))))))) ones
+  then (Npos (XI (XI (XI (XI (XI (XI (XI
+         XH)))))))) :: (mask_of (sub ones (S (S (S (S (S (S (S (S O)))))))))
+                         n')
+  else (clear_low (Npos (XI (XI (XI (XI (XI (XI (XI XH)))))))) ones) :: 
+         (mask_of O n')
+
+(** val spec_new_ipv6prefix : bytes -> bytes -> bytes res **)
+
+let spec_new_ipv6prefix ip mask0 =
+  if (||)
+       (negb
+         (Nat.eqb (length ip) (S (S (S (S (S (S (S (S (S (S (S (S (S (S (S (S
+           O))))))))))))))))))
+       (negb
+         (Nat.eqb (length mask0) (S (S (S (S (S (S (S (S (S (S (S (S (S (S (S
+           (S O))))))))))))))))))
+  then Err e_invalid
+  else (match spec_mask_ones mask0 with
+        | Some ones ->
+          Ok
+            (N0 :: ((N.of_nat ones) :: (firstn
+                                         (Nat.div
+                                           (add ones (S (S (S (S (S (S (S
+                                             O)))))))) (S (S (S (S (S (S (S
+                                           (S O))))))))) (apply_mask ip ones))))
+        | None -> Err e_invalid)
+
+(** val spec_ipv6prefix : bytes -> (bytes * bytes) res **)
+
+let spec_ipv6prefix = function
+| [] -> Err e_invalid
+| _ :: l ->
+  (match l with
+   | [] -> Err e_invalid
+   | pl :: data ->
+     if (&&)
+          (Nat.leb (length data) (S (S (S (S (S (S (S (S (S (S (S (S (S (S (S
+            (S O)))))))))))))))))
+          (N.leb pl (Npos (XO (XO (XO (XO (XO (XO (XO XH)))))))))
+     then let ip =
+            app data
+              (repeat N0
+                (sub (S (S (S (S (S (S (S (S (S (S (S (S (S (S (S (S
+                  O)))))))))))))))) (length data)))
+          in
+          if beq (apply_mask ip (N.to_nat pl)) ip
+          then Ok (ip,
+                 (mask_of (N.to_nat pl) (S (S (S (S (S (S (S (S (S (S (S (S
+                   (S (S (S (S O))))))))))))))))))
+          else Err e_invalid
+     else Err e_invalid)
 
 (** val rfc_up_enc :
     (bytes -> bytes) -> nat -> bytes -> bytes -> bytes -> bytes **)
@@ -9297,6 +10121,114 @@ let dispatch_codec name bs zs =
                                                                     t_bytes)
                                                                     else None
 
+(** val t_outcome : outcome -> tok list **)
+
+let t_outcome = function
+| Returned (p, _) -> (TI Z0) :: (t_packet p)
+| Failed (e, _) -> (TI (Zpos XH)) :: ((TI (Z.of_N e)) :: [])
+| Waiting _ -> (TI (Zpos (XO XH))) :: []
+
+(** val t_soutcome : soutcome -> tok list **)
+
+let t_soutcome = function
+| SReturned (t, _) -> (TI Z0) :: (t_tuple t)
+| SFailed (e, _) -> (TI (Zpos XH)) :: ((TI (Z.of_N e)) :: [])
+| SWaiting _ -> (TI (Zpos (XO XH))) :: []
+
+(** val dispatch_client : bytes -> bytes list -> z list -> tok list option **)
+
+let dispatch_client name bs zs =
+  if name_is name (String ((Ascii (true, false, true, true, false, true,
+       true, false)), (String ((Ascii (false, true, true, true, false, true,
+       false, false)), (String ((Ascii (true, true, false, false, false,
+       true, true, false)), (String ((Ascii (false, false, true, true, false,
+       true, true, false)), (String ((Ascii (true, false, false, true, false,
+       true, true, false)), (String ((Ascii (true, false, true, false, false,
+       true, true, false)), (String ((Ascii (false, true, true, true, false,
+       true, true, false)), (String ((Ascii (false, false, true, false, true,
+       true, true, false)), EmptyString))))))))))))))))
+  then Some
+         (t_outcome
+           (exchange_recv md5 (z1 zs) (Z.eqb (nth (S O) zs Z0) (Zpos XH))
+             (b1 bs) (b2 bs) (skipn (S (S O)) bs)))
+  else if name_is name (String ((Ascii (true, true, false, false, true, true,
+            true, false)), (String ((Ascii (false, true, true, true, false,
+            true, false, false)), (String ((Ascii (true, true, false, false,
+            false, true, true, false)), (String ((Ascii (false, false, true,
+            true, false, true, true, false)), (String ((Ascii (true, false,
+            false, true, false, true, true, false)), (String ((Ascii (true,
+            false, true, false, false, true, true, false)), (String ((Ascii
+            (false, true, true, true, false, true, true, false)), (String
+            ((Ascii (false, false, true, false, true, true, true, false)),
+            EmptyString))))))))))))))))
+       then Some
+              (t_soutcome
+                (spec_exchange_recv md5 (z1 zs)
+                  (Z.eqb (nth (S O) zs Z0) (Zpos XH)) (b1 bs) (b2 bs)
+                  (skipn (S (S O)) bs)))
+       else None
+
+(** val take_hacts : z list -> hact list **)
+
+let rec take_hacts = function
+| [] -> []
+| k :: l ->
+  (match l with
+   | [] -> []
+   | a :: l0 ->
+     (match l0 with
+      | [] -> []
+      | b :: r ->
+        (if Z.eqb k Z0
+         then HServe (Z.to_nat a)
+         else if Z.eqb k (Zpos XH)
+              then HRelease (Z.to_nat a)
+              else if Z.eqb k (Zpos (XO XH))
+                   then HDeliver ((Z.to_nat a), (Z.eqb b (Zpos XH)))
+                   else if Z.eqb k (Zpos (XI XH))
+                        then HHandlerDone (Z.to_nat a)
+                        else if Z.eqb k (Zpos (XO (XO XH)))
+                             then HShutdown
+                             else if Z.eqb k (Zpos (XI (XO XH)))
+                                  then HWait (Z.to_nat a)
+                                  else HExpire (Z.to_nat a)) :: (take_hacts r)))
+
+(** val dispatch_sched : bytes -> bytes list -> z list -> tok list option **)
+
+let dispatch_sched name _ zs =
+  if name_is name (String ((Ascii (true, false, true, true, false, true,
+       true, false)), (String ((Ascii (false, true, true, true, false, true,
+       false, false)), (String ((Ascii (true, true, false, false, true, true,
+       true, false)), (String ((Ascii (true, true, false, false, false, true,
+       true, false)), (String ((Ascii (false, false, false, true, false,
+       true, true, false)), (String ((Ascii (true, false, true, false, false,
+       true, true, false)), (String ((Ascii (false, false, true, false,
+       false, true, true, false)), EmptyString))))))))))))))
+  then Some
+         (flat_map (fun l -> (TI (Zneg XH)) :: (map (fun x -> TI x) l))
+           (run_hacts false init (take_hacts zs)))
+  else if name_is name (String ((Ascii (true, false, true, true, false, true,
+            true, false)), (String ((Ascii (false, true, true, true, false,
+            true, false, false)), (String ((Ascii (true, true, false, false,
+            true, true, true, false)), (String ((Ascii (true, true, false,
+            false, false, true, true, false)), (String ((Ascii (false, false,
+            false, true, false, true, true, false)), (String ((Ascii (true,
+            false, true, false, false, true, true, false)), (String ((Ascii
+            (false, false, true, false, false, true, true, false)), (String
+            ((Ascii (true, true, true, true, true, false, true, false)),
+            (String ((Ascii (false, false, true, true, false, true, true,
+            false)), (String ((Ascii (true, false, true, false, false, true,
+            true, false)), (String ((Ascii (true, true, true, false, false,
+            true, true, false)), (String ((Ascii (true, false, false, false,
+            false, true, true, false)), (String ((Ascii (true, true, false,
+            false, false, true, true, false)), (String ((Ascii (true, false,
+            false, true, true, true, true, false)),
+            EmptyString))))))))))))))))))))))))))))
+       then Some
+              (flat_map (fun l -> (TI (Zneg XH)) :: (map (fun x -> TI x) l))
+                (run_hacts true init (take_hacts zs)))
+       else None
+
 (** val dispatch : bytes -> bytes list -> z list -> tok list **)
 
 let dispatch name bs zs =
@@ -9344,4 +10276,11 @@ let dispatch name bs zs =
                        (match dispatch_codec name bs zs with
                         | Some t -> t
                         | None ->
-                          (TI (Zneg (XI (XO (XO (XO (XO (XI XH)))))))) :: [])))
+                          (match dispatch_client name bs zs with
+                           | Some t -> t
+                           | None ->
+                             (match dispatch_sched name bs zs with
+                              | Some t -> t
+                              | None ->
+                                (TI (Zneg (XI (XO (XO (XO (XO (XI
+                                  XH)))))))) :: [])))))
